@@ -1,0 +1,58 @@
+//go:build verif
+
+// Contracts for contract-based deductive verification (govc, /verif).
+// This file contains comments only; it adds no code to the package.
+
+package blocker
+
+//@ opaque github.com/gauss-project/aurorafs/pkg/boson.Address as Addr
+
+//@ # what the network-status probe last answered (ghost), so that call sites can refer to it
+//@ ghost lastStatus int
+//@ extern func (github.com/gauss-project/aurorafs/pkg/p2p.Blocklister).NetworkStatus
+//@   assigns ghost lastStatus
+//@   ensures lastStatus == int(result)
+//@ extern func (github.com/gauss-project/aurorafs/pkg/p2p.Blocklister).Blocklist
+//@   assigns nothing
+
+//@ # map key of a peer
+//@ spec func pkey(a boson.Address) string = pure("(github.com/gauss-project/aurorafs/pkg/boson.Address).ByteString", a)
+//@ # the monotonic clock (ticks counted only while the network is available)
+//@ spec func now(b *Blocker) int = int(b.sequence)
+
+//@ func (*Blocker).Flag
+//@   property C26
+//@   requires b.blocklister != nil && b.peers != nil && sequencerResolution > 0 && b.flagTimeout >= 0
+//@   let k = pkey(addr)
+//@   let was = present(b.peers, pkey(addr))
+//@   let rec0 = b.peers[pkey(addr)]
+//@   let after0 = b.peers[pkey(addr)].blockAfter
+//@   let t0 = now(b)
+//@   ensures clock-untouched: now(b) == t0
+//@   ensures unavailable-no-change: lastStatus != int(p2p.NetworkStatusAvailable) ==> (present(b.peers, k) <==> was) && b.peers[k] == rec0
+//@   ensures first-flag-starts-period: lastStatus == int(p2p.NetworkStatusAvailable) && !was ==> present(b.peers, k) && b.peers[k] != nil && int(b.peers[k].blockAfter) == (t0 + b.flagTimeout / sequencerResolution) % 18446744073709551616 && b.peers[k].address == addr
+//@   ensures reflag-keeps-period: was ==> present(b.peers, k) && b.peers[k] == rec0 && (rec0 != nil ==> b.peers[k].blockAfter == after0)
+//@   ensures others-untouched: forall k2 string :: k2 != k ==> (present(b.peers, k2) <==> old(present(b.peers, k2))) && b.peers[k2] == old(b.peers[k2])
+
+//@ func (*Blocker).Unflag
+//@   property C26
+//@   requires b.peers != nil
+//@   let k = pkey(addr)
+//@   ensures forgotten: !present(b.peers, k)
+//@   ensures others-untouched: forall k2 string :: k2 != k ==> (present(b.peers, k2) <==> old(present(b.peers, k2))) && b.peers[k2] == old(b.peers[k2])
+//@   ensures clock-untouched: now(b) == old(now(b))
+
+//@ # the sweep: a peer is handed to the blocklister only if its flag period has run out on the
+//@ # availability clock, and its record is dropped in the same step (at most one blocklisting per period)
+//@ func (*Blocker).block
+//@   property C26
+//@   requires b.blocklister != nil && b.peers != nil && b.logger != nil
+//@   requires forall k string :: present(b.peers, k) ==> b.peers[k] != nil
+//@   callassert Blocklister.Blocklist timed-out-only: 0 < int(peer.blockAfter) && int(peer.blockAfter) < now(b) && present(b.peers, key) && b.peers[key] == peer && $overlay == peer.address
+//@   ensures clock-untouched: now(b) == old(now(b))
+//@   ensures nothing-added: forall k string :: present(b.peers, k) ==> old(present(b.peers, k)) && b.peers[k] == old(b.peers[k])
+//@   ensures only-timed-out-dropped: forall k string :: old(present(b.peers, k)) && !present(b.peers, k) ==> 0 < int(old(b.peers[k].blockAfter)) && int(old(b.peers[k].blockAfter)) < now(b)
+//@   loop 1 invariant now(b) == old(now(b)) && b.blocklister != nil && b.peers != nil && b.peers == old(b.peers)
+//@   loop 1 invariant forall k string :: present(b.peers, k) ==> old(present(b.peers, k)) && b.peers[k] == old(b.peers[k]) && b.peers[k] != nil
+//@   loop 1 invariant forall k string :: old(present(b.peers, k)) && !present(b.peers, k) ==> 0 < int(old(b.peers[k].blockAfter)) && int(old(b.peers[k].blockAfter)) < now(b)
+//@   loop 1 invariant forall k string :: present(b.peers, k) ==> b.peers[k].blockAfter == old(b.peers[k].blockAfter) && b.peers[k].address == old(b.peers[k].address)
